@@ -45,6 +45,7 @@ CONSTANTS
     Days,         \* day indices of the dates as written (internal and sent)
     Shifts,       \* (UTC day) - (written day) of a date-time: subset of {-1,0,1}
     WithNoSent,   \* BOOLEAN: messages without a Date: header occur
+    WithRecent,   \* BOOLEAN: views with \Recent messages occur
     Fields,       \* header fields a message may have
     Tokens,       \* searchable words
     \* ---- key universe
@@ -56,7 +57,9 @@ CONSTANTS
     SeqSets,      \* sequence-set keys: sequences of <<lo, hi>>, 0 stands for "*"
     UidSets,      \* UID-set keys, same shape
     \* ---- latitude / deviations
-    DateModes,    \* subset of {"written", "utc"}: readings of "disregarding time and timezone"
+    DateModes,    \* readings of "disregarding time and timezone": subset of {"ww","wu","uw","uu"},
+                  \*   first letter internal date, second sent date; w = the date as written,
+                  \*   u = the UTC date (a store may keep the internal date as an instant)
     Devs,         \* named deviations evaluated next to the ideal semantics
     \* ---- sampling (Exhaustive = FALSE)
     NumMb, NumLeaf, NumLeafSets, LeafSetSize, NumD1, NumD2
@@ -87,6 +90,10 @@ StdUidSets ==   \* messages have UIDs in 101..105
 StdShifts  == {-1, 0, 1}          \* (a cfg file cannot write negative numbers)
 SmallSeqSets == { <<<<2, 0>>>> }
 SmallUidSets == { <<<<102, 101>>>> }
+LowUidSets ==   \* messages have UIDs in 1..5 (a store that numbers from 1)
+    { <<N(1)>>, <<N(3)>>, <<N(5)>>, <<N(0)>>, <<N(7)>>,
+      <<<<2, 4>>>>, <<<<4, 2>>>>, <<<<3, 0>>>>, <<<<0, 2>>>>, <<<<6, 0>>>>,
+      <<<<1, 0>>>>, <<N(1), N(4)>>, <<<<1, 2>>, <<5, 0>>>>, <<N(2), <<4, 0>>>> }
 
 ---------------------------------------------------------------------------
 (* Key constructors *)
@@ -140,11 +147,13 @@ InSet(x, set, max) == \E i \in 1..Len(set) : InRange(x, set[i], max)
 MaxUid(v) == IF Len(v) = 0 THEN 0 ELSE v[Len(v)].uid
 
 \* the day a date-time lies on: as written, or after conversion to UTC
-DayOf(dt, c) == IF c.date = "utc" THEN dt.d + dt.s ELSE dt.d
+DayOf(dt, mode) == IF mode = "utc" THEN dt.d + dt.s ELSE dt.d
+IMode == [ww |-> "written", wu |-> "written", uw |-> "utc", uu |-> "utc"]
+SMode == [ww |-> "written", wu |-> "utc", uw |-> "written", uu |-> "utc"]
 
 InHeaders(s, m) == \E f \in DOMAIN m.hdr : s \in m.hdr[f]
 
-Ideal == [date |-> "written", body |-> "body", seq |-> "seq"]
+Ideal == [date |-> "ww", body |-> "body", seq |-> "seq"]
 
 FlagOps   == DOMAIN FlagOf
 UnFlagOps == DOMAIN UnFlagOf
@@ -165,12 +174,12 @@ Eval(k, v, p, c) ==
           [] o = "UNKEYWORD"      -> k.w \notin m.flags
           [] o = "LARGER"         -> m.size > k.n
           [] o = "SMALLER"        -> m.size < k.n
-          [] o = "BEFORE"         -> DayOf(m.int, c) < k.d
-          [] o = "ON"             -> DayOf(m.int, c) = k.d
-          [] o = "SINCE"          -> DayOf(m.int, c) >= k.d
-          [] o = "SENTBEFORE"     -> m.sent # NoSent /\ DayOf(m.sent, c) < k.d
-          [] o = "SENTON"         -> m.sent # NoSent /\ DayOf(m.sent, c) = k.d
-          [] o = "SENTSINCE"      -> m.sent # NoSent /\ DayOf(m.sent, c) >= k.d
+          [] o = "BEFORE"         -> DayOf(m.int, IMode[c.date]) < k.d
+          [] o = "ON"             -> DayOf(m.int, IMode[c.date]) = k.d
+          [] o = "SINCE"          -> DayOf(m.int, IMode[c.date]) >= k.d
+          [] o = "SENTBEFORE"     -> m.sent # NoSent /\ DayOf(m.sent, SMode[c.date]) < k.d
+          [] o = "SENTON"         -> m.sent # NoSent /\ DayOf(m.sent, SMode[c.date]) = k.d
+          [] o = "SENTSINCE"      -> m.sent # NoSent /\ DayOf(m.sent, SMode[c.date]) >= k.d
           [] o \in FieldOps       -> FieldOf[o] \in DOMAIN m.hdr /\ k.s \in m.hdr[FieldOf[o]]
           [] o = "HEADER"         -> /\ k.f \in DOMAIN m.hdr
                                      /\ IF k.s = "" THEN m.hdr[k.f] # {} ELSE k.s \in m.hdr[k.f]
@@ -196,11 +205,12 @@ Mentions(k, ops) ==       \* some key of the tree has an operator in ops
       [] OTHER -> k.op \in ops
 
 (* RFC 2180 4.3: a message expunged by another session but not yet announced  *)
-(* may be searched or left out; RFC 3501 "disregarding time and timezone":    *)
-(* every reading in DateModes is accepted.                                    *)
-Alts(k, v, c)  == {Res(k, v, [c EXCEPT !.date = dm]) \ H :
+(* may be searched (on whatever the server still has of it) or left out: the  *)
+(* answer is determined on the other messages only.  RFC 3501 "disregarding   *)
+(* time and timezone": every reading in DateModes is accepted.                *)
+Alts(k, v, c)  == {(Res(k, v, [c EXCEPT !.date = dm]) \ Hidden(v)) \cup H :
                         dm \in DateModes, H \in SUBSET Hidden(v)}
-AltsU(k, v, c) == {ResU(k, v, [c EXCEPT !.date = dm]) \ H :
+AltsU(k, v, c) == {(ResU(k, v, [c EXCEPT !.date = dm]) \ HiddenU(v)) \cup H :
                         dm \in DateModes, H \in SUBSET HiddenU(v)}
 ToUids(A, v)   == {v[p].uid : p \in A}
 
@@ -209,7 +219,7 @@ ToUids(A, v)   == {v[p].uid : p \in A}
 (*   UidSearchSeqSetAsUid  - in UID SEARCH a sequence-set key is read as UIDs *)
 (* A deviation is evaluated only for programs that mention the keys it is     *)
 (* about, and listed only where it changes the answer.                        *)
-Ctx(D, uidcmd) == [date |-> "written",
+Ctx(D, uidcmd) == [date |-> "ww",
                    body |-> IF "BodyKeyMatchesHeaders" \in D THEN "text" ELSE "body",
                    seq  |-> IF uidcmd /\ "UidSearchSeqSetAsUid" \in D THEN "uid" ELSE "seq"]
 
@@ -323,7 +333,7 @@ Build(n, us, nold, hid, cores) ==
 AllMailboxes ==
     UNION { { Build(n, Sorted(U), nold, hid, cores) :
                 U \in {U \in SUBSET Uids : Cardinality(U) = n},
-                nold \in 0..n, hid \in SUBSET (1..n), cores \in [1..n -> MsgCore] }
+                nold \in (IF WithRecent THEN 0..n ELSE {n}), hid \in SUBSET (1..n), cores \in [1..n -> MsgCore] }
             : n \in 0..MaxMsgs }
 
 RandCore(j) ==
@@ -336,7 +346,8 @@ RandCore(j) ==
 
 RandMailbox(i) ==
     LET n == IF RandomElement(1..8) = 1 THEN RandomElement(0..MaxMsgs) ELSE MaxMsgs
-    IN  Build(n, Sorted(RandomSubset(n, Uids)), RandomElement(0..n),
+    IN  Build(n, Sorted(RandomSubset(n, Uids)),
+              IF WithRecent THEN RandomElement(0..n) ELSE n,
               IF RandomElement(1..3) = 1 THEN RandomElement(SUBSET (1..n)) ELSE {},
               [j \in 1..n |-> RandCore(j)])
 
